@@ -492,6 +492,9 @@ class Program(object):
 
     @classmethod
     def load(cls, config="default", units=None, repo=None):
+        # the thorough tier re-runs the rules under other build configurations
+        if config == "default" and os.environ.get("JV_CONFIG"):
+            config = os.environ["JV_CONFIG"]
         paths = extract(config, repo=repo, units=units)
         tus = {}
         with ThreadPoolExecutor(max_workers=8) as ex:
